@@ -158,7 +158,7 @@ func TestHunt2_3_BareLFTrailerSectionDrainEatsNextRequest(t *testing.T) {
 					return
 				}
 				t.Fatalf("%s\nthe body ends after %q (the same server served %q when the handler read the stream to its end), but after a handler that stopped early the requests served on the connection are %q, connection closed: %v\n%s",
-					fmt.Sprintf("body %q followed by GET /first and GET /second", body), "0\\r\\n"+trailer, full, got, closed, out)
+					fmt.Sprintf("body %q followed by GET /first and GET /second", body), "0\r\n"+trailer, full, got, closed, out)
 			})
 		}
 	}
